@@ -94,6 +94,8 @@ pub struct Source<'a> {
     pub misuse: Option<String>,
     last_offered: usize,
     eof_reported: bool,
+    /// input offsets at which scripted faults fired
+    pub fault_offsets: Vec<usize>,
 }
 
 impl<'a> Source<'a> {
@@ -110,6 +112,7 @@ impl<'a> Source<'a> {
             misuse: None,
             last_offered: 0,
             eof_reported: false,
+            fault_offsets: Vec::new(),
         }
     }
     fn piece_end(&mut self) -> usize {
@@ -133,6 +136,7 @@ impl<'a> Source<'a> {
             if i == idx {
                 self.next_fault += 1;
                 self.faults_fired += 1;
+                self.fault_offsets.push(self.pos);
                 return Some(f);
             }
         }
